@@ -152,42 +152,127 @@ def observe(db, fmt):
 
 
 def compare(status, want, rep, db, fmt, force):
-    """returns list of (what, detail, classification) ; classification None = violation, or a known-finding key"""
+    """returns list of (what, detail, classification, kind) ; classification None = violation, or a known-finding
+    key; kind = the name of the oracle"""
     probs = []
     if status == "error":
         if db is not None:
-            probs.append(("merge_strategy='error' did not abort on a duplicate key", rep, None))
+            probs.append(("merge_strategy='error' did not abort on a duplicate key", rep, None, "error_strategy_did_not_abort"))
         return probs
     if status == "abort":
         return probs                      # '<key>_n' already taken: outcome not prescribed (the code aborts)
     if db is None:
-        probs.append(("create_db raised (%s) although the strategy prescribes an outcome" % rep, rep, None))
+        probs.append(("create_db raised (%s) although the strategy prescribes an outcome" % rep, rep, None, "import_raised"))
         return probs
     got = observe(db, fmt)
     if set(got) != set(want):
-        probs.append(("stored keys differ", {"stored": sorted(got), "expected": sorted(want)}, None))
+        probs.append(("stored keys differ", {"stored": sorted(got), "expected": sorted(want)}, None, "stored_keys_differ"))
         return probs
     for k in want:
         w, g = want[k], got[k]
         for c in COLS:
             wc = ",".join(sorted(w["exempt"][c])) if c in force else str(w["cols"][c])
             if str(g["cols"][c]) != wc:
-                probs.append(("column %s of %r" % (c, k), {"stored": g["cols"][c], "expected": wc}, None))
+                probs.append(("column %s of %r" % (c, k), {"stored": g["cols"][c], "expected": wc}, None, "column_differs"))
         if g["attrs"] != w["attrs"]:
             probs.append(("attribute values of %r" % k, {"stored": {a: sorted(b) for a, b in g["attrs"].items()},
-                                                         "expected": {a: sorted(b) for a, b in w["attrs"].items()}}, None))
+                                                         "expected": {a: sorted(b) for a, b in w["attrs"].items()}}, None,
+                          "attribute_values_differ"))
         for a, vs in g["attr_lists"].items():
             if len(vs) != len(set(vs)):
-                probs.append(("attribute %s of %r has repeated values" % (a, k), vs, None))
+                probs.append(("attribute %s of %r has repeated values" % (a, k), vs, None, "attribute_values_repeated"))
         if g["links"] != w["links"]:
             probs.append(("Parent links of %r" % k, {"stored": sorted(g["links"]), "expected": sorted(w["links"])},
-                          "links"))
+                          "links", "parent_links_differ"))
     return probs
+
+
+def mk_case(lines, arrivals, cfg, fmt, phase=None):
+    """a self-contained case: the lines, the generator's record (arrival) of every line, the configuration of the
+    import under test, the format; with "phase" (0/1 per line) the phase-0 lines are imported with create_unique and
+    the phase-1 lines arrive through FeatureDB.update with the configuration under test"""
+    case = {"scenario": "create_db" if phase is None else "create_db+update", "input": list(lines), "records": list(arrivals),
+            "parallel": ["records"], "config": cfg.to_json(), "fmt": fmt}
+    if phase is not None:
+        case["phase"] = list(phase)
+        case["parallel"] = ["records", "phase"]
+    return case
+
+
+def execute(ctx, case):
+    """the reference outcome and the real outcome of a case.  returns None when the case is outside the domain (the
+    preparatory create_unique import of an update case is not prescribed / fails), else a dict with status, want, db,
+    rep (and cfg0, rep0, first, rest for an update case)"""
+    import warnings
+    EVER.clear()
+    lines, arrivals, fmt = case["input"], case["records"], case["fmt"]
+    cfg = dbside.Cfg.from_json(case["config"])
+    strategy, force = cfg.strategy, cfg.force
+    ext = "gff3" if fmt == "gff3" else "gtf"
+    if "phase" not in case:
+        status, want = reference(arrivals, strategy, force, fmt)
+        path = dbside.write_lines(os.path.join(ctx.scratch, "c05." + ext), lines)
+        db, rep = dbside.py_create(path, cfg)
+        return {"status": status, "want": want, "db": db, "rep": rep, "cfg": cfg}
+    cut = sum(1 for ph in case["phase"] if ph == 0)
+    if not 0 < cut < len(lines) or list(case["phase"]) != [0] * cut + [1] * (len(lines) - cut):
+        return None
+    st = {}; cn = {}; dm = {}
+    status0, _ = reference(arrivals[:cut], "create_unique", force, fmt, st, cn, dm)
+    cfg0 = dbside.Cfg(idspec=cfg.idspec, strategy="create_unique", disG=True, disT=True)
+    path = dbside.write_lines(os.path.join(ctx.scratch, "c05a." + ext), lines[:cut])
+    db, rep0 = dbside.py_create(path, cfg0)
+    if status0 != "ok" or db is None:
+        return None
+    dm = {}       # the duplicates table only records what the 'merge' strategy files
+    status, want = reference(arrivals[cut:], strategy, force, fmt, st, cn, dm)
+    path2 = dbside.write_lines(os.path.join(ctx.scratch, "c05b." + ext), lines[cut:])
+    try:
+        with warnings.catch_warnings():
+            warnings.simplefilter("ignore")
+            db.update(path2, **cfg.update_kwargs())
+        rep = "ok"
+    except Exception as ex:
+        rep = "err " + dbside.err_name(ex)
+        db = None
+    return {"status": status, "want": want, "db": db, "rep": rep, "cfg": cfg, "cfg0": cfg0, "rep0": rep0,
+            "first": lines[:cut], "rest": lines[cut:]}
+
+
+def check_outcome(case, ex, res):
+    """compare the real outcome with the reference; a difference that matches the predicate of a known finding is
+    recorded as such, every other one is an oracle failure"""
+    strategy = ex["cfg"].strategy
+    probs = compare(ex["status"], ex["want"], ex["rep"], ex["db"], case["fmt"], ex["cfg"].force)
+    for what, detail, cls, kind in probs:
+        known = None
+        if cls == "links" and strategy == "replace":
+            # D12b: the kept key carries, besides the last arrival's links, only links of arrivals that were
+            # filed under it earlier and have been replaced
+            key = what.split("'")[1]
+            every = EVER.get(key, set())
+            if set(detail["expected"]) <= set(detail["stored"]) <= every:
+                known = "D12b"
+        if known:
+            res.known_hits.setdefault(known, dict(case, what=what, detail=detail))
+        else:
+            common.fail(res, case, kind, what + " not as merge_strategy=%r prescribes" % strategy,
+                        error=ex["rep"] if kind == "import_raised" else None, observed_expected=detail,
+                        reference_status=ex["status"])
+
+
+def judge(ctx, case):
+    res = common.Result("C05")
+    if len(case["input"]) != len(case["records"]):
+        return res
+    ex = execute(ctx, case)
+    if ex is not None:
+        check_outcome(case, ex, res)
+    return res
 
 
 def run(ctx):
     import gffutils
-    import warnings
     res = common.Result("C05")
     r = ctx.rng("c05")
     res.rule = ("2-7 arrivals over 1-2 keys with equal/different columns and attribute sets, Parent links, arrivals "
@@ -201,7 +286,6 @@ def run(ctx):
         force = r.sample(EXEMPTABLE, r.choice([0, 0, 1, 2])) if strategy == "merge" else []
         arrivals = rand_arrivals(r, r.randrange(2, 8), r.choice([1, 1, 2]), fmt)
         use_update = r.random() < 0.3
-        EVER.clear()
         idspec = dbside.IdSpec() if fmt == "gff3" else dbside.IdSpec("L", [("a", "eid")], form="str")
         cfg = dbside.Cfg(idspec=idspec, strategy=strategy, force=force, disG=True, disT=True)
         lines = lines_of(arrivals, fmt)
@@ -211,47 +295,20 @@ def run(ctx):
         if len(set(a["key"] for a in arrivals)) < len(arrivals):
             res.nontriv(tuple(lines) + (strategy, tuple(force)))
         if not use_update:
-            status, want = reference(arrivals, strategy, force, fmt)
-            path = dbside.write_lines(os.path.join(ctx.scratch, "c05." + ("gff3" if fmt == "gff3" else "gtf")), lines)
-            db, rep = dbside.py_create(path, cfg)
-            cmds.append(dbside.cmd_create(lines, cfg)); exp.append(rep); tags.append(("create_db", repr(inp)))
+            case = mk_case(lines, arrivals, cfg, fmt)
         else:
             cut = r.randrange(1, len(arrivals))
-            st = {}; cn = {}; dm = {}
-            status0, _ = reference(arrivals[:cut], "create_unique", force, fmt, st, cn, dm)
-            cfg0 = dbside.Cfg(idspec=idspec, strategy="create_unique", disG=True, disT=True)
-            path = dbside.write_lines(os.path.join(ctx.scratch, "c05a." + ("gff3" if fmt == "gff3" else "gtf")), lines[:cut])
-            db, rep0 = dbside.py_create(path, cfg0)
-            if status0 != "ok" or db is None:
-                continue
-            dm = {}       # the duplicates table only records what the 'merge' strategy files
-            status, want = reference(arrivals[cut:], strategy, force, fmt, st, cn, dm)
-            path2 = dbside.write_lines(os.path.join(ctx.scratch, "c05b." + ("gff3" if fmt == "gff3" else "gtf")), lines[cut:])
-            cmds.append(dbside.cmd_create(lines[:cut], cfg0)); exp.append(rep0); tags.append(("create_db", repr(inp)))
-            try:
-                with warnings.catch_warnings():
-                    warnings.simplefilter("ignore")
-                    db.update(path2, **cfg.update_kwargs())
-                rep = "ok"
-            except Exception as ex:
-                rep = "err " + dbside.err_name(ex)
-                db = None
-            cmds.append(dbside.cmd_update(lines[cut:], cfg)); exp.append(rep); tags.append(("FeatureDB.update", repr(inp)))
-        probs = compare(status, want, rep, db, fmt, force)
-        for what, detail, cls in probs:
-            known = None
-            if cls == "links" and strategy == "replace":
-                # D12b: the kept key carries, besides the last arrival's links, only links of arrivals that were
-                # filed under it earlier and have been replaced
-                key = what.split("'")[1]
-                every = EVER.get(key, set())
-                if set(detail["expected"]) <= set(detail["stored"]) <= every:
-                    known = "D12b"
-            if known:
-                res.known_hits.setdefault(known, dict(inp, what=what, detail=detail))
-            else:
-                res.oracle_failures.append((what + " not as merge_strategy=%r prescribes" % strategy,
-                                            dict(inp, detail=detail, reference_status=status)))
+            case = mk_case(lines, arrivals, cfg, fmt, phase=[0] * cut + [1] * (len(arrivals) - cut))
+        ex = execute(ctx, case)
+        if ex is None:
+            continue
+        status, db, rep = ex["status"], ex["db"], ex["rep"]
+        if not use_update:
+            cmds.append(dbside.cmd_create(lines, cfg)); exp.append(rep); tags.append(("create_db", repr(inp)))
+        else:
+            cmds.append(dbside.cmd_create(ex["first"], ex["cfg0"])); exp.append(ex["rep0"]); tags.append(("create_db", repr(inp)))
+            cmds.append(dbside.cmd_update(ex["rest"], cfg)); exp.append(rep); tags.append(("FeatureDB.update", repr(inp)))
+        check_outcome(case, ex, res)
         if db is not None and status == "ok":
             cmds.append("dump"); exp.append(dbside.dump(db)); tags.append(("tables", repr(inp)))
         if len(res.samples) < 3 and status == "ok":
@@ -276,10 +333,9 @@ def run(ctx):
                 res.corr_disagreements.append((comp, inp[:900], m[:300], e[:300]))
     res.assumptions = ["values of exempt columns contain no comma", "ids contain no tab",
                        "when the generated '<key>_n' is already taken the import aborts (outcome not prescribed)"]
+    common.shrink_first_failure(res, lambda case: judge(ctx, case))
     return res
 
 
 def replay(ctx, payload):
-    res = common.Result("C05")
-    print("replay:", payload.get("what"), payload.get("input"))
-    return res
+    return common.replay_failure("C05", payload, lambda case: judge(ctx, case))
